@@ -14,7 +14,7 @@ m = {
     "hooks": {
         "guard": "ABT_VERIF_SIM",
         "enable": "tools/build.py compiles /repo/src (list from src/Makefile.am) with -DABT_VERIF_SIM and redirects libc/pthread/futex/clock/allocator symbols of the libabt objects with objcopy --redefine-syms=tools/redef.txt; nothing is built inside /repo",
-        "baseline_off_cmd": "make -C /repo -j16 && make -C /repo check -j8",
+        "baseline_off_cmd": "make -C /repo -j16 && make -C /repo/test check -j8",
         "source_commits": hook_commits,
         "add_only": True,
     },
